@@ -7,11 +7,24 @@ import Cactus.Lemmas.Layout
 import Cactus.Lemmas.Basic
 import Cactus.Lemmas.Table
 /-!
-# C09 — what an operation destroys does not depend on addresses or table order (first layer)
+# C09 — what an operation destroys does not depend on addresses or table order
 
 Layout enters the model in two places only: the order of entries inside a table (`shuffle`) and the
-order in which the values of a collected group are destroyed (`hint`).  First layer: the hint
-only permutes the group, and a shuffle changes no count of any table.
+order in which the values of a collected group are destroyed (`hint`).  What is proved here:
+* one-step lemmas: `C09_reorder_perm`, `C09_dropCycle_set`, `C09_shuffle_counts`;
+* decision level: `C09_same_decision_under_every_layout`, `C09_same_members_under_every_layout`,
+  `C09_full_group_holds_only_members`;
+* one collection: `C09_group_order_irrelevant`, `C09_group_block_ready`,
+  `C09_release_order_irrelevant`, `C09_collection_layout_independent`,
+  `C09_collected_values_hold_only_dead_handles`, `C09_full_implies_contract`;
+* whole histories of `fullQuiet` operations: `C09_whole_histories` (+ `_any_step_budget`,
+  `C09_hints_only`) and its content spelled out (`C09_same_strong_counts` … 
+  `C09_same_allocations_released`);
+* example: a pair of histories (19 / 21 operations) to which the theorem applies and whose logs and
+  heaps really differ as lists.
+Not proved for whole histories (outside `fullQuiet`): `makeMut` (its clone branch breaks `Full`),
+bare `adopt/unadopt/store/take`, destructor scripts and panics — for those the one-collection
+theorems are what is proved.
 -/
 namespace Cactus
 open State
@@ -69,9 +82,41 @@ members of the group, so the one remaining layout dependence — the order in wh
 values are destroyed — only ever drops inert handles (C16).  The lift to whole histories is
 `C09_whole_histories` at the end of this file. -/
 
-theorem C09_same_decision_under_every_layout : type_of% @cycleRefs_layout := @cycleRefs_layout
-theorem C09_same_members_under_every_layout : type_of% @group_members_layout := @group_members_layout
-theorem C09_full_group_holds_only_members : type_of% @full_group_closed := @full_group_closed
+/-- **decision level.**  On two states that differ only in the order of table entries (and in the
+hint) the trace from a live object visits the same set of objects, builds a map with the same key
+set and the same counts, and the orphan test takes the same decision
+(`cycleRefs_layout` in `Cactus.Lemmas.Layout`) -/
+theorem C09_same_decision_under_every_layout (s s' : State) (x : Nat) (h : s.LayoutEq s')
+    (hO : s.InvO) (hB : s.InvB) (hx : s.isLive x = true) :
+    (∀ k, k ∈ (cycleRefs s x).visited ↔ k ∈ (cycleRefs s' x).visited)
+    ∧ (∀ k, k ∈ (cycleRefs s x).cmap.keys ↔ k ∈ (cycleRefs s' x).cmap.keys)
+    ∧ (∀ k, (cycleRefs s x).cmap.get k = (cycleRefs s' x).cmap.get k)
+    ∧ (cycleRefs s x).cmap.isEmpty = (cycleRefs s' x).cmap.isEmpty
+    ∧ hasExternalOwners s (cycleRefs s x).cmap = hasExternalOwners s' (cycleRefs s' x).cmap :=
+  cycleRefs_layout s s' x h hO hB hx
+
+/-- if the orphan test passes in `s` it passes in every layout variant `s'`, and the set of objects
+torn down (`cmap.keys`, which is the visited set) is the same (`group_members_layout`) -/
+theorem C09_same_members_under_every_layout (s s' : State) (x : Nat) (h : s.LayoutEq s')
+    (hO : s.InvO) (hB : s.InvB) (hx : s.isLive x = true)
+    (hne : (cycleRefs s x).cmap.isEmpty = false)
+    (hext : hasExternalOwners s (cycleRefs s x).cmap = false) :
+    (cycleRefs s' x).cmap.isEmpty = false
+    ∧ hasExternalOwners s' (cycleRefs s' x).cmap = false
+    ∧ (∀ k, k ∈ (cycleRefs s x).cmap.keys ↔ k ∈ (cycleRefs s' x).cmap.keys)
+    ∧ (cycleRefs s x).cmap.keys.Perm (cycleRefs s' x).cmap.keys
+    ∧ (∀ k, k ∈ (cycleRefs s' x).cmap.keys ↔ k ∈ (cycleRefs s x).visited) :=
+  group_members_layout s s' x h hO hB hx hne hext
+
+/-- under `Full`, after a passed orphan test, the values of the collected group hold strong handles
+to members of the group only (`full_group_closed`) -/
+theorem C09_full_group_holds_only_members (s : State) (x : Nat) (hO : s.InvO) (hB : s.InvB)
+    (hF : s.Full) (hx : s.isLive x = true)
+    (hne : (cycleRefs s x).cmap.isEmpty = false)
+    (hext : hasExternalOwners s (cycleRefs s x).cmap = false)
+    (m t : Nat) (hm : m ∈ (cycleRefs s x).visited) (hH : 0 < s.H m t) :
+    t ∈ (cycleRefs s x).visited ∧ t ∈ (cycleRefs s x).cmap.keys :=
+  full_group_closed s x hO hB hF hx hne hext m t hm hH
 
 
 /-! ## The remaining layout dependence is unobservable (`Cactus.Lemmas.GroupOrder`)
@@ -87,9 +132,39 @@ invariants.  (Strictness matters: the proof needs that the implicit weak referen
 member survives until `phase3`; the lemma file contains a machine-checked 9-step example where a
 non-group block without that property ends in `uaf` in one order and not in the other.) -/
 
-theorem C09_group_order_irrelevant : type_of% @group_order_irrelevant_reorder := @group_order_irrelevant_reorder
-theorem C09_group_block_ready : type_of% @ready_of_inv := @ready_of_inv
-theorem C09_release_order_irrelevant : type_of% @releaseWeaks_perm := @releaseWeaks_perm
+/-- the block of destructors of a collected group, run in the order chosen by two different
+hints: same heap, same handle tables, same stack, no error, logs permutations of each other
+(`group_order_irrelevant_reorder` in `Cactus.Lemmas.GroupOrder`; `runSteps n` is `n` machine steps,
+`Ready` the side conditions that `C09_group_block_ready` derives from the invariants) -/
+theorem C09_group_order_irrelevant (s : State) (hint hint' : List Nat) (xs : List Val)
+    (rest : List Frame) (herr : s.err = none)
+    (hstack : s.stack = (reorder hint xs).map Frame.dropVal ++ rest)
+    (hq : ∀ v ∈ xs, v.quiet) (hr : Ready s.heap (blockHeld xs) (blockWeaks xs)) :
+    ∃ n n' s1 s2, runSteps n s = s1
+      ∧ runSteps n' { s with stack := (reorder hint' xs).map Frame.dropVal ++ rest } = s2
+      ∧ s1.heap = s2.heap ∧ s1.roots = s2.roots ∧ s1.wroots = s2.wroots ∧ s1.vals = s2.vals
+      ∧ s1.raws = s2.raws ∧ s1.stack = rest ∧ s2.stack = rest ∧ s1.err = none ∧ s2.err = none
+      ∧ s2 = { s1 with log := s2.log }
+      ∧ s1.log.Perm s2.log :=
+  group_order_irrelevant_reorder s hint hint' xs rest herr hstack hq hr
+
+/-- in a state satisfying the invariants, a block of `dropVal` frames on top of the stack whose
+strong handles all designate non-live objects satisfies `Ready` (`ready_of_inv`) -/
+theorem C09_group_block_ready (s : State) (vs : List Val) (rest : List Frame)
+    (hcore : s.InvCore) (hR : s.InvR) (hS : s.InvSCore)
+    (hst : s.stack = vs.map Frame.dropVal ++ rest)
+    (hdead : ∀ t ∈ blockHeld vs, s.isLive t = false) :
+    Ready s.heap (blockHeld vs) (blockWeaks vs) :=
+  ready_of_inv s vs rest hcore hR hS hst hdead
+
+/-- releasing a list of weak references is invariant under permutation of the list, on the heap and
+on the multiset of log events; all other components are equal too (`releaseWeaks_perm`) -/
+theorem C09_release_order_irrelevant (s : State) (ws ws' : List Nat) (hgood : GoodW s.heap ws)
+    (hp : ws.Perm ws') :
+    (releaseWeaks s ws').heap = (releaseWeaks s ws).heap
+    ∧ releaseWeaks s ws' = { releaseWeaks s ws with log := (releaseWeaks s ws').log }
+    ∧ (releaseWeaks s ws').log.Perm (releaseWeaks s ws).log :=
+  releaseWeaks_perm s ws ws' hgood hp
 
 
 /-! ## A whole collection is layout independent (`Cactus.Lemmas.CollectLayout`)
@@ -104,11 +179,34 @@ objects destroyed and released; only the order inside the group differs).  Toget
 `C09_same_decision_under_every_layout` (table order changes neither the decision nor the member
 set) this is the property for one collecting operation; the lift to whole histories follows below. -/
 
-theorem C09_collection_layout_independent : type_of% @collection_layout_independent :=
-  @collection_layout_independent
-theorem C09_collected_values_hold_only_dead_handles : type_of% @collected_values_hold_dead_handles :=
-  @collected_values_hold_dead_handles
-theorem C09_full_implies_contract : type_of% @full_contract := @full_contract
+theorem C09_collection_layout_independent (s2 : State) (o : Nat) (h1 h2 : List Nat)
+    (hI : s2.InvCore) (hR : s2.InvR) (hS : s2.InvSCore) (herr : s2.err = none) (hF : s2.Full)
+    (ho : s2.isLive o = true)
+    (hne : (cycleRefs s2 o).cmap.isEmpty = false)
+    (hext : hasExternalOwners s2 (cycleRefs s2 o).cmap = false)
+    (hq : ∀ v ∈ (s2.cyc2 (cycleRefs s2 o).cmap).2, v.quiet) :
+    ∃ n1 n2,
+      let r1 := runSteps n1 (({ s2 with hint := h1 } : State).dropCycle (cycleRefs s2 o).cmap)
+      let r2 := runSteps n2 (({ s2 with hint := h2 } : State).dropCycle (cycleRefs s2 o).cmap)
+      r1.stack = s2.stack ∧ r2.stack = s2.stack ∧ r1.heap = r2.heap ∧ r1.roots = r2.roots
+      ∧ r1.wroots = r2.wroots ∧ r1.vals = r2.vals ∧ r1.raws = r2.raws
+      ∧ r1.err = none ∧ r2.err = none ∧ r1.log.Perm r2.log :=
+  collection_layout_independent s2 o h1 h2 hI hR hS herr hF ho hne hext hq
+
+/-- under `Full`, after a passed orphan test, every strong handle stored in a collected value
+(`(s2.cyc2 c).2` are the values moved out by phases 1–2 of `dropCycle`) designates a member of the
+group, which is not live after `dropCycle` (`collected_values_hold_dead_handles`) -/
+theorem C09_collected_values_hold_only_dead_handles (s2 : State) (o : Nat)
+    (hI : s2.InvCore) (herr : s2.err = none) (hF : s2.Full) (ho : s2.isLive o = true)
+    (hne : (cycleRefs s2 o).cmap.isEmpty = false)
+    (hext : hasExternalOwners s2 (cycleRefs s2 o).cmap = false) :
+    ∀ t ∈ blockHeld (s2.cyc2 (cycleRefs s2 o).cmap).2,
+      t ∈ (cycleRefs s2 o).cmap.keys
+      ∧ (s2.dropCycle (cycleRefs s2 o).cmap).isLive t = false :=
+  collected_values_hold_dead_handles s2 o hI herr hF ho hne hext
+
+/-- recording every stored handle (`Full`) implies the adoption contract `P` -/
+theorem C09_full_implies_contract {s : State} (hF : s.Full) : s.P := full_contract hF
 
 
 /-! ## Whole histories (`Cactus.Lemmas.History.*`)
@@ -138,19 +236,146 @@ branch breaks `Full`: machine-checked counterexample in `Cactus.Lemmas.History.E
 `adopt/unadopt/store/take`, destructor scripts and panics — for those the one-collection theorems
 above are what is proved. -/
 
-theorem C09_whole_histories : type_of% @history_layout_independent := @history_layout_independent
-theorem C09_whole_histories_any_step_budget : type_of% @history_layout_independent_fuel :=
-  @history_layout_independent_fuel
-theorem C09_hints_only : type_of% @history_hint_independent := @history_hint_independent
-theorem C09_same_strong_counts : type_of% @history_strong_counts := @history_strong_counts
-theorem C09_same_weak_counts : type_of% @history_weak_counts := @history_weak_counts
-theorem C09_same_live_objects : type_of% @history_live := @history_live
-theorem C09_same_released_and_values : type_of% @history_freed_value := @history_freed_value
-theorem C09_same_tables_as_maps : type_of% @history_tables := @history_tables
-theorem C09_same_program_handles : type_of% @history_handles := @history_handles
-theorem C09_same_values_destroyed : type_of% @history_destroyed := @history_destroyed
-theorem C09_same_allocations_released : type_of% @history_freedIds := @history_freedIds
-theorem C09_whole_histories_example : type_of% @HistoryExample.applies := @HistoryExample.applies
-theorem C09_example_orders_differ : type_of% @HistoryExample.logs_differ := @HistoryExample.logs_differ
+/-- **C09 for whole histories** (`history_layout_independent` in `Cactus.Lemmas.History.Main`) -/
+theorem C09_whole_histories (ops1 ops2 : List (Op × List Nat))
+    (hsame : SameProgram ops1 ops2)
+    (hfq : ∀ oh ∈ ops1, oh.1.fullQuiet)
+    (he1 : (run ops1).err = none) :
+    (run ops2).err = none ∧ (run ops1).LayoutEqL (run ops2) :=
+  history_layout_independent ops1 ops2 hsame hfq he1
+
+/-- the same for every step budget per operation (`runFrom fuel {}` is `run` with `fuel` instead of
+`defaultFuel`) -/
+theorem C09_whole_histories_any_step_budget (fuel : Nat) (ops1 ops2 : List (Op × List Nat))
+    (hsame : SameProgram ops1 ops2)
+    (hfq : ∀ oh ∈ ops1, oh.1.fullQuiet)
+    (he1 : (runFrom fuel {} ops1).err = none) :
+    (runFrom fuel {} ops2).err = none ∧ (runFrom fuel {} ops1).LayoutEqL (runFrom fuel {} ops2) :=
+  history_layout_independent_fuel fuel ops1 ops2 hsame hfq he1
+
+/-- replacing the hints of a history without `shuffle` by any others (the first `hints.length`
+operations get the new hints) changes nothing but the order of log events inside collected groups -/
+theorem C09_hints_only (ops : List (Op × List Nat)) (hints : List (List Nat))
+    (hns : ∀ oh ∈ ops, ∀ q i, oh.1 ≠ .shuffle q i)
+    (hfq : ∀ oh ∈ ops, oh.1.fullQuiet)
+    (he1 : (run ops).err = none) :
+    let ops2 := ops.zipWith (fun oh h => (oh.1, h)) hints ++ ops.drop hints.length
+    (run ops2).err = none ∧ (run ops).LayoutEqL (run ops2) :=
+  history_hint_independent ops hints hns hfq he1
+
+/-! the content of `LayoutEqL`, made explicit (all under the hypotheses of `C09_whole_histories`) -/
+
+/-- every strong count observable afterwards is the same -/
+theorem C09_same_strong_counts (ops1 ops2 : List (Op × List Nat)) (hsame : SameProgram ops1 ops2)
+    (hfq : ∀ oh ∈ ops1, oh.1.fullQuiet) (he1 : (run ops1).err = none) (o : Nat) :
+    (run ops1).strongNat o = (run ops2).strongNat o :=
+  history_strong_counts ops1 ops2 hsame hfq he1 o
+
+/-- every weak count observable afterwards is the same -/
+theorem C09_same_weak_counts (ops1 ops2 : List (Op × List Nat)) (hsame : SameProgram ops1 ops2)
+    (hfq : ∀ oh ∈ ops1, oh.1.fullQuiet) (he1 : (run ops1).err = none) (o : Nat) :
+    (run ops1).weakNat o = (run ops2).weakNat o :=
+  history_weak_counts ops1 ops2 hsame hfq he1 o
+
+/-- the same objects are live -/
+theorem C09_same_live_objects (ops1 ops2 : List (Op × List Nat)) (hsame : SameProgram ops1 ops2)
+    (hfq : ∀ oh ∈ ops1, oh.1.fullQuiet) (he1 : (run ops1).err = none) (o : Nat) :
+    (run ops1).isLive o = (run ops2).isLive o :=
+  history_live ops1 ops2 hsame hfq he1 o
+
+/-- the same allocations have been released, and the same values are still stored -/
+theorem C09_same_released_and_values (ops1 ops2 : List (Op × List Nat))
+    (hsame : SameProgram ops1 ops2) (hfq : ∀ oh ∈ ops1, oh.1.fullQuiet)
+    (he1 : (run ops1).err = none) (o : Nat) :
+    ((run ops1).heap[o]?).map (·.freed) = ((run ops2).heap[o]?).map (·.freed)
+    ∧ ((run ops1).heap[o]?).map (·.value) = ((run ops2).heap[o]?).map (·.value) :=
+  history_freed_value ops1 ops2 hsame hfq he1 o
+
+/-- every recorded adoption count is the same (the tables agree as maps) -/
+theorem C09_same_tables_as_maps (ops1 ops2 : List (Op × List Nat)) (hsame : SameProgram ops1 ops2)
+    (hfq : ∀ oh ∈ ops1, oh.1.fullQuiet) (he1 : (run ops1).err = none) (a : Nat) (l : Link) :
+    ((run ops1).tbl a).get l = ((run ops2).tbl a).get l :=
+  history_tables ops1 ops2 hsame hfq he1 a l
+
+/-- the program's handle tables are equal -/
+theorem C09_same_program_handles (ops1 ops2 : List (Op × List Nat)) (hsame : SameProgram ops1 ops2)
+    (hfq : ∀ oh ∈ ops1, oh.1.fullQuiet) (he1 : (run ops1).err = none) :
+    (run ops1).roots = (run ops2).roots ∧ (run ops1).wroots = (run ops2).wroots
+    ∧ (run ops1).vals = (run ops2).vals ∧ (run ops1).raws = (run ops2).raws :=
+  history_handles ops1 ops2 hsame hfq he1
+
+/-- the same values are destroyed (as a multiset; the order inside one collected group is the one
+thing a layout may change) -/
+theorem C09_same_values_destroyed (ops1 ops2 : List (Op × List Nat)) (hsame : SameProgram ops1 ops2)
+    (hfq : ∀ oh ∈ ops1, oh.1.fullQuiet) (he1 : (run ops1).err = none) :
+    (run ops1).destroyedVids.Perm (run ops2).destroyedVids :=
+  history_destroyed ops1 ops2 hsame hfq he1
+
+/-- the same allocations are released -/
+theorem C09_same_allocations_released (ops1 ops2 : List (Op × List Nat))
+    (hsame : SameProgram ops1 ops2) (hfq : ∀ oh ∈ ops1, oh.1.fullQuiet)
+    (he1 : (run ops1).err = none) :
+    (run ops1).freedIds.Perm (run ops2).freedIds :=
+  history_freedIds ops1 ops2 hsame hfq he1
+
+
+/-! ## Non-vacuity: a pair of histories to which `C09_whole_histories` applies
+
+`HistoryExample.hA` / `hB` (19 and 21 operations over 7 objects): a 3-ring `0 → 1 → 2 → 0` with a
+tail `2 → 3`, all built with `link`; a survivor (object 4) adopting two further objects; the three
+program handles of the ring are dropped and the last `drop` collects the group `{0, 1, 2, 3}`.
+`hB` is `hA` with two `shuffle`s inserted and other hints. -/
+
+/-- the two histories, written out -/
+example : HistoryExample.hA =
+    [(.act .new, []), (.act .new, []), (.act .new, []), (.act .new, []),
+     (.act (.clone 0), []), (.act (.link 4 2), []),       -- 2 → 0
+     (.act (.clone 2), []), (.act (.link 4 1), []),       -- 1 → 2
+     (.act (.clone 1), []), (.act (.link 4 0), []),       -- 0 → 1
+     (.act (.link 3 2), []),                              -- 2 → 3 (tail)
+     (.act .new, []), (.act .new, []), (.act .new, []),
+     (.act (.link 5 3), []), (.act (.link 4 3), []),      -- survivor 4 → 6, 4 → 5
+     (.act (.drop 2), []), (.act (.drop 1), []), (.act (.drop 0), [])] := rfl
+
+example : HistoryExample.hB =
+    [(.act .new, []), (.act .new, []), (.act .new, []), (.act .new, []),
+     (.act (.clone 0), []), (.act (.link 4 2), []),
+     (.act (.clone 2), []), (.act (.link 4 1), []),
+     (.act (.clone 1), []), (.act (.link 4 0), []),
+     (.act (.link 3 2), []),
+     (.act .new, []), (.act .new, []), (.act .new, []),
+     (.act (.link 5 3), []), (.act (.link 4 3), []),
+     (.shuffle 2 0, [7]), (.shuffle 3 0, []),             -- tables of objects 2 and 4 permuted
+     (.act (.drop 2), [3, 1]), (.act (.drop 1), [3, 1]), (.act (.drop 0), [3, 1])] := rfl
+
+/-- the hypotheses of `C09_whole_histories` hold for the pair -/
+example : SameProgram HistoryExample.hA HistoryExample.hB
+    ∧ (∀ oh ∈ HistoryExample.hA, oh.1.fullQuiet) ∧ (run HistoryExample.hA).err = none :=
+  ⟨HistoryExample.same, HistoryExample.fullQuiet, HistoryExample.noErr⟩
+
+/-- … so the theorem applies -/
+theorem C09_whole_histories_example :
+    (run HistoryExample.hB).err = none
+    ∧ (run HistoryExample.hA).LayoutEqL (run HistoryExample.hB) :=
+  C09_whole_histories HistoryExample.hA HistoryExample.hB HistoryExample.same
+    HistoryExample.fullQuiet HistoryExample.noErr
+
+/-- … and it is not an equality: the event logs differ as lists -/
+theorem C09_example_orders_differ : (run HistoryExample.hA).log ≠ (run HistoryExample.hB).log :=
+  HistoryExample.logs_differ
+
+/-- concretely: the group `{0, 1, 2, 3}` is destroyed in two different orders, the same four
+allocations are released, the survivor and its two objects stay live in both runs -/
+example : (run HistoryExample.hA).destroyedVids = [2, 1, 0, 3]
+    ∧ (run HistoryExample.hB).destroyedVids = [3, 1, 2, 0] :=
+  ⟨HistoryExample.destroyed_A, HistoryExample.destroyed_B⟩
+
+example : (run HistoryExample.hA).roots = [4] ∧ (run HistoryExample.hB).roots = [4]
+    ∧ (∀ o, o < 4 → (run HistoryExample.hA).isLive o = false ∧ (run HistoryExample.hB).isLive o = false)
+    ∧ (∀ o, o < 7 → 4 ≤ o →
+        (run HistoryExample.hA).isLive o = true ∧ (run HistoryExample.hB).isLive o = true)
+    ∧ (run HistoryExample.hA).freedIds.Perm [0, 1, 2, 3]
+    ∧ (run HistoryExample.hB).freedIds.Perm [0, 1, 2, 3] := by
+  decide +kernel
 
 end Cactus
